@@ -9,7 +9,7 @@ import (
 	"golang.org/x/tools/go/ssa"
 )
 
-func init() { register("C02", []string{"./pkg/frame", "./pkg/x25"}, runC02) }
+func init() { register("C02", []string{"./pkg/frame", "./pkg/x25", "./pkg/message"}, runC02) }
 
 var specCRCv1 = []string{"B(len(MSG.Payload),0)", "V(recv.SequenceNumber)", "V(recv.SystemID)", "V(recv.ComponentID)", "B(MSG.ID,0)", "run(MSG.Payload)", "V(arg0)"}
 var specCRCv2 = []string{"B(len(MSG.Payload),0)", "V(recv.IncompatibilityFlag)", "V(recv.CompatibilityFlag)", "V(recv.SequenceNumber)", "V(recv.SystemID)", "V(recv.ComponentID)",
@@ -311,6 +311,8 @@ func runC02(c *Ctx) {
 
 	// R2.4 rejection inventory
 	ruleRejections(c, rf, "R2.4")
+	// R2.5: the CRC_EXTRA seed itself (shared with C03's R3.4)
+	ruleCRCExtraPreimage(c, "R2.5")
 }
 
 func fieldStructName(addr ssa.Value) string {
